@@ -39,7 +39,7 @@ where T: Types
             .write(true)
             .read(true)
             .create_new(true)
-            .open(path)?;
+            .open(&path)?;
 
         let record_offsets = vec![*chunk_id];
 
@@ -55,8 +55,16 @@ where T: Types
             chunk,
         };
 
-        open.append_record(&initial_record)?;
-        open.chunk.f.write_all(&open.pending_data)?;
+        let res = open
+            .append_record(&initial_record)
+            .and_then(|_| open.chunk.f.write_all(&open.pending_data));
+
+        if let Err(e) = res {
+            // Do not leave a chunk file without a complete head record
+            // behind: the next open() would not be able to load it.
+            let _ = std::fs::remove_file(&path);
+            return Err(e);
+        }
         open.pending_data.clear();
 
         Ok(open)
